@@ -22,12 +22,13 @@ func init() {
 		},
 		Assumptions: []string{
 			"internal/ref RTP model transcribes JT/T 1078-2016 table 19; reserved data types 5..15 are laid out like audio (timestamp, no intervals) as the property states",
-			"a fresh Packet is used per decode step (receiver reuse is C03's subject)",
+			"every stream is decoded twice: with a fresh Packet per step, and with ONE Packet object reused for every step of the stream (the way a decoding loop uses it); both must give the reference result at every step",
 		},
 	}, map[string]Worker{"rtp": c17Worker})
 	replayers["c17"] = func(w map[string]any) string {
 		s, _ := w["stream"].(string)
-		return c17Stream(core.UnHex(s), nil)
+		reuse, _ := w["reuse"].(bool)
+		return c17Stream(core.UnHex(s), nil, reuse)
 	}
 }
 
@@ -66,14 +67,21 @@ func c17Gen(r *core.Rand, dt int, plen int) ref.RTP {
 
 // c17Stream decodes a whole stream step by step and compares every step with the reference classification
 // and (when pks is given) with the generating parameters. Returns "" or the oracle that fired.
-func c17Stream(stream []byte, pks []ref.RTP) string {
+func c17Stream(stream []byte, pks []ref.RTP, reuse ...bool) string {
 	rest := stream
 	step := 0
+	var shared *jt1078.Packet
+	if len(reuse) > 0 && reuse[0] {
+		shared = jt1078.NewPacket() // one object for the whole stream, as a decoding loop would use it
+	}
 	for len(rest) > 0 {
 		kind, total := ref.ClassifyRTP(rest)
 		in := make([]byte, len(rest))
 		copy(in, rest)
 		p := jt1078.NewPacket()
+		if shared != nil {
+			p = shared
+		}
 		rem, err := p.Decode(in)
 		if !bytes.Equal(in, rest) {
 			return "mutated|Decode modified its input"
@@ -145,6 +153,13 @@ func c17Stream(stream []byte, pks []ref.RTP) string {
 			bad = "body length"
 		case !bytes.Equal(p.Body, payload):
 			bad = "payload"
+		case dt == 4 && p.Timestamp != 0:
+			bad = "timestamp reported for transparent data"
+		case dt > 2 && (p.LastIFrameInterval != 0 || p.LastFrameInterval != 0):
+			bad = "frame intervals reported for a non-video frame"
+		}
+		if bad != "" && shared != nil {
+			bad += " (Packet object reused across steps)"
 		}
 		if bad == "" && pks != nil && step < len(pks) {
 			k := pks[step]
@@ -190,6 +205,22 @@ func c17Worker(c *core.Collector, x *Ctx) {
 		}
 		if guard(c, w, func() { bad = c17Stream(stream, pks) }) {
 			return
+		}
+		if bad == "" && len(pks) >= 2 {
+			reused := false
+			w2 := func() any {
+				return map[string]any{"kind": "c17", "stream": core.HexCap(stream, 4096), "gen": gen, "reuse": true}
+			}
+			if guard(c, w2, func() { bad = c17Stream(stream, pks, true); reused = true }) {
+				return
+			}
+			if reused {
+				c.Count("streams_decoded_with_one_reused_packet", 1)
+			}
+			if bad != "" {
+				c.Violate("rtp|"+bad, "jt1078 Decode vs reference layout: "+bad+" ("+gen+")", map[string]any{"kind": "c17", "stream": core.Hex(stream), "gen": gen, "reuse": true})
+				return
+			}
 		}
 		steps.Add(int64(len(pks)) + 1)
 		if nt {
@@ -276,4 +307,5 @@ func c17Worker(c *core.Collector, x *Ctx) {
 		run(h, nil, false, "markerfuzz")
 	})
 	c.Floor("decode_steps", 50000)
+	c.Floor("streams_decoded_with_one_reused_packet", 1000)
 }
